@@ -15,7 +15,8 @@ import (
 type TypedCfg struct {
 	WrongKind   int  // 1-in-N chance of a value of an arbitrary kind (0 = never)
 	Null        int  // 1-in-N chance of null
-	KeyVariants bool // case-variant and escaped key spellings
+	KeyVariants bool // escaped key spellings
+	CaseKeys    bool // additionally upper-/lower-cased key spellings
 	Unknown     bool // unknown members
 	Duplicates  bool // duplicate members
 	OutOfRange  bool // integer literals beyond the destination kind
@@ -363,10 +364,14 @@ func typedStruct(t *rapid.T, sb *strings.Builder, s *gen.TypeSpec, c TypedCfg, d
 		if c.KeyVariants {
 			switch rapid.IntRange(0, 9).Draw(t, "keyvar") {
 			case 0:
-				key = strings.ToUpper(key)
+				if c.CaseKeys {
+					key = strings.ToUpper(key)
+				}
 			case 1:
-				key = strings.ToLower(key)
-			case 2:
+				if c.CaseKeys {
+					key = strings.ToLower(key)
+				}
+			case 2, 3, 4:
 				spellCfg.Exotic = true
 			}
 		}
